@@ -791,8 +791,16 @@ func (i *biterator) SeekGE(item *kvitem) {
 	}
 }
 
+// SeekForPrev positions at the last key <= key (RocksDB semantics, which the
+// shared range iterator relies on for inclusive upper bounds): look for the key
+// itself before falling back to the last key below it.
 func (i *biterator) SeekForPrev(key []byte) {
-	i.SeekLT(&kvitem{key: key})
+	item := &kvitem{key: key}
+	i.SeekGE(item)
+	if i.n != nil && i.Valid() && i.cmp(i.Cur(), item) == 0 {
+		return
+	}
+	i.SeekLT(item)
 }
 
 // SeekLT seeks to the first item less-than the provided item.
